@@ -139,7 +139,8 @@ def gen_stream(rng, native):
             if any(k == "datetime" for k in info["kinds"]):
                 kinds.append("ns datetime" if any(_is_ns(c) for r in grid[2:] for c in r) else "us datetime")
             name = grid[0][0][2:]
-            tables.append((len(rows), len(grid), name[:-1] if name.endswith("*") else name))
+            tables.append((len(rows), len(grid), name[:-1] if name.endswith("*") else name,
+                           header_units(grid, info["transposed"])))
             rows.extend(grid)
             for k in info["kinds"]:
                 kinds.append("col:" + k)
@@ -152,7 +153,7 @@ def gen_stream(rng, native):
             blank = (None if native else "")
             rows.append(["**" + nm + ("*" if tr else "")] + [blank] * rng.choice([0, 0, 1, 2]))
             rows.append([rng.choice(["all", "a b", " all ", "x a x"])] + [blank] * rng.choice([0, 0, 1, 3]))
-            tables.append((len(rows) - 2, 2, nm))
+            tables.append((len(rows) - 2, 2, nm, []))
             kinds.append("transposed" if tr else "rowwise")
         elif el == "directive":
             rows.append(["***" + rng.choice(["include", "d", "x y", ""])] + ([""] if rng.random() < 0.3 else []))
@@ -215,33 +216,44 @@ def excel_safe(rows):
 
 # --------------------------------------------------------------------------- running the real readers
 
-def read_blocks(api, src, to, filt):
+def make_fixer_arg(spec):
+    """the reader's `fixer` argument: None (default), or a ParseFixer subclass / a fresh instance of it configured
+    with strict_types and stop_on_errors (spec = {"strict_types": bool, "stop": bool, "as": "class" | "instance"})"""
+    if not spec:
+        return None
+    from pdtable import ParseFixer
+    strict_types, stop = spec["strict_types"], spec["stop"]
+
+    class Configured(ParseFixer):
+        def __init__(self):
+            super().__init__()
+            self.strict_types = strict_types
+            self.stop_on_errors = 1 if stop else 0
+            self._dbg = False
+    return Configured if spec["as"] == "class" else Configured()
+
+
+def read_blocks(api, src, to, filt, fixer_spec=None):
     """-> ("ok", [(BlockType name, value)]) | ("exc", class name)"""
-    from pdtable.io.parsers.blocks import parse_blocks
-    from pdtable import read_csv, read_excel
     try:
         with warnings.catch_warnings():
             warnings.simplefilter("ignore")
-            if api == "parse_blocks":
-                it = parse_blocks(iter([list(r) for r in src]), to=to, filter=filt)
-            elif api == "read_csv":
-                it = read_csv(io.StringIO(src), sep=SEP, to=to, filter=filt)
-            else:
-                it = read_excel(src, to=to, filter=filt)
+            it = make_reader(api, src, to, filt, fixer_spec)
             return "ok", [(bt.name, v) for bt, v in it]
     except Exception as e:  # noqa: BLE001
         return "exc", type(e).__name__
 
 
-def make_reader(api, src, to, filt):
-    """the reader generator, not yet started"""
+def make_reader(api, src, to, filt, fixer_spec=None):
+    """the reader generator, not yet started (every reader gets its own fixer object)"""
     from pdtable.io.parsers.blocks import parse_blocks
     from pdtable import read_csv, read_excel
+    kw = {} if not fixer_spec else {"fixer": make_fixer_arg(fixer_spec)}
     if api == "parse_blocks":
-        return parse_blocks(iter([list(r) for r in src]), to=to, filter=filt)
+        return parse_blocks(iter([list(r) for r in src]), to=to, filter=filt, **kw)
     if api == "read_csv":
-        return read_csv(io.StringIO(src), sep=SEP, to=to, filter=filt)
-    return read_excel(src, to=to, filter=filt)
+        return read_csv(io.StringIO(src), sep=SEP, to=to, filter=filt, **kw)
+    return read_excel(src, to=to, filter=filt, **kw)
 
 
 def read_forms(api, src, filt, plan):
@@ -252,8 +264,9 @@ def read_forms(api, src, filt, plan):
                                                        k1 blocks of the first reader, then the second is started and
                                                        read for k2 blocks, then the third is started; then round-robin
     A reader must deliver its own form whatever other readers are alive."""
+    fx = plan.get("fixer")
     if plan["mode"] == "sequential":
-        return {f: read_blocks(api, src, f, filt) for f in FORMS}
+        return {f: read_blocks(api, src, f, filt, fx) for f in FORMS}
     order = plan["order"]
     res = {f: ["ok", []] for f in FORMS}
     gens, done = {}, set()
@@ -265,7 +278,7 @@ def read_forms(api, src, filt, plan):
             with warnings.catch_warnings():
                 warnings.simplefilter("ignore")
                 if f not in gens:
-                    gens[f] = make_reader(api, src, f, filt)
+                    gens[f] = make_reader(api, src, f, filt, fx)
                 bt, v = next(gens[f])
             res[f][1].append((bt.name, v))
         except StopIteration:
@@ -296,10 +309,44 @@ def gen_plan(rng):
     order = list(FORMS)
     rng.shuffle(order)
     if r < 0.3:
-        return {"mode": "sequential"}
-    if r < 0.7:
-        return {"mode": "lockstep", "order": order}
-    return {"mode": "staggered", "order": order, "k": [rng.randint(1, 3), rng.randint(0, 2)]}
+        plan = {"mode": "sequential"}
+    elif r < 0.7:
+        plan = {"mode": "lockstep", "order": order}
+    else:
+        plan = {"mode": "staggered", "order": order, "k": [rng.randint(1, 3), rng.randint(0, 2)]}
+    # the reader's fixer argument: default (none given), or a configured class / instance
+    if rng.random() < 0.4:
+        plan["fixer"] = {"strict_types": rng.random() < 0.4, "stop": rng.random() < 0.6,
+                         "as": rng.choice(["class", "instance"])}
+    return plan
+
+
+_TZ = None
+
+
+def drop_utc_offsets(rows):
+    """without the strict unit/dtype check a datetime column of mixed UTC offsets is accepted as an object column
+    (the reader model has no strict_types switch): such cases are kept offset-free"""
+    import re
+    global _TZ
+    _TZ = _TZ or re.compile(r"^(\s*\d{4}-\d{1,2}-\d{1,2}[T ][\d:.]+?)(Z|z|[+-]\d{2}:\d{2})(\s*)$")
+    return [[_TZ.sub(r"\1\3", c) if isinstance(c, str) else c for c in r] for r in rows]
+
+
+def header_units(grid, transposed):
+    """the units the header rows of a generated table state, per column (trimmed)"""
+    def strip(x):
+        return x.strip("".join(chr(c) for c in rc.SPACE_CPS))
+    if transposed:
+        return [strip(line[1]) for line in grid[2:]]
+    if len(grid) < 4:
+        return []
+    names = []
+    for c in grid[2]:
+        if ref_is_blank(c):
+            break
+        names.append(c)
+    return [strip(u) for u in grid[3][:len(names)]]
 
 
 def canon_val(v):
@@ -391,13 +438,20 @@ def oracle(out, case, api, sheets, tables, filt_py, results):
         if k >= len(expected):
             out.fail(f"{api}: more table blocks than tables in the input", case, len(P), len(expected), key="table_count")
             return
-        sheet, start, n, name = expected[k]
+        sheet, start, n, name = expected[k][:4]
+        units = expected[k][4] if len(expected[k]) > 4 else None
         k += 1
         origin = vp.metadata.origin.input_location.row
         raw = sheets[sheet][start:start + n]
         if origin != start or grid_to_json(vc) != grid_to_json(raw):
             out.fail(f"{api}: a cellgrid table is not the raw rows of its block", dict(case, table=name),
                      {"origin": origin, "cellgrid": grid_to_json(vc)}, {"origin": start, "rows": grid_to_json(raw)}, key="cellgrid_raw")
+            return
+        # the units are those of the header rows, whatever fixer configuration the reader was given
+        if units is not None and (list(vp.units) != list(units) or
+                                  [c["unit"] for c in vj["columns"].values()] != list(units)):
+            out.fail(f"{api}: the units of a table are not those of its header rows", dict(case, table=name),
+                     {"pdtable": list(vp.units), "jsondata": [c["unit"] for c in vj["columns"].values()]}, list(units), key="units")
             return
         # jsondata == table_to_json_data(pdtable table)
         try:
@@ -447,14 +501,15 @@ def write_workbook(path, sheets):
 def split_sheets(rng, rows, tables):
     """cut the stream after a blank line outside every table: two worksheets (read_excel runs parse_blocks per sheet)"""
     inside = set()
-    for start, n, _ in tables:
+    for start, n, *_ in tables:
         inside.update(range(start, start + n))
     cuts = [i for i, r in enumerate(rows) if i not in inside and 0 < i < len(rows) - 1 and ref_kind(r).startswith("blank")
             and len(r) <= 1]
     if not cuts:
-        return [rows], [(0, st, n, nm) for st, n, nm in tables]
+        return [rows], [(0, st, n, nm, un) for st, n, nm, un in tables]
     cut = rng.choice(cuts) + 1
-    return [rows[:cut], rows[cut:]], [((0, st, n, nm) if st < cut else (1, st - cut, n, nm)) for st, n, nm in tables]
+    return [rows[:cut], rows[cut:]], [((0, st, n, nm, un) if st < cut else (1, st - cut, n, nm, un))
+                                      for st, n, nm, un in tables]
 
 
 def merge_model(answers):
@@ -547,7 +602,8 @@ def run(tier, seed, model_ok, translator, search=False):
                 "nanoseconds (a column with one such value is held as datetime64[ns]), "
                 "both orientations, zero rows, no columns at all (name and destination rows only), padding, comments after the names) interleaved with metadata, directives, "
                 "template rows, comments, late `key:` rows and blank lines with payload, with and without blank separators, "
-                "25 % with a read filter; the three readers of a case are consumed one after the other (30 %), in lock-step (40 %) "
+                "25 % with a read filter; 40 % with the reader's fixer argument given (a ParseFixer subclass or an instance of it, "
+                "strict_types False / True x stop_on_errors 0 / 1; the units must be those of the header rows); the three readers of a case are consumed one after the other (30 %), in lock-step (40 %) "
                 "or staggered (a reader started after k blocks of another, 30 %); each through parse_blocks (text / native cells), read_csv (StringIO; half of the texts "
                 "without a final newline) and read_excel (openpyxl workbook in a scratch dir; a third split into two "
                 "worksheets) x {pdtable, jsondata, cellgrid}; plus unknown output forms with a "
@@ -564,8 +620,13 @@ def run(tier, seed, model_ok, translator, search=False):
             native = api == "read_excel" or (api == "parse_blocks" and rng.random() < 0.4)
             rows, tables, kinds = gen_stream(rng, native)
             filt_py, filt_spec = gen_filter(rng, tables)
+            plan = gen_plan(rng)
+            fx = plan.get("fixer")
+            if fx and not fx["strict_types"]:
+                rows = drop_utc_offsets(rows)
+            fixer_kind = "strict" if not fx or fx["stop"] else "lenient"
             text = xlsx = None
-            tables4 = [(0, st, k, nm) for st, k, nm in tables]
+            tables4 = [(0, st, k, nm, un) for st, k, nm, un in tables]
             if api == "read_csv":
                 rows = csv_safe(rows)
                 # half of the texts do not end with a newline (the last line is then read without one)
@@ -593,10 +654,11 @@ def run(tier, seed, model_ok, translator, search=False):
                     "tables": [list(t) for t in tables4]}
             if len(sheets) > 1:
                 case["sheets"] = [grid_to_json(sh) for sh in sheets]
-            plan = gen_plan(rng)
             case["plan"] = plan
             results = read_forms(api, src, filt_py, plan)
             out.count("readers:" + plan["mode"])
+            out.count("fixer:" + ("default" if not fx else "%s strict_types=%s stop_on_errors=%s" % (
+                fx["as"], fx["strict_types"], fx["stop"])))
             nontrivial = any(k.startswith("col:") for k in kinds) and any(k.startswith("rows:") and k != "rows:0" for k in kinds)
             c08.add_case(out, case, [api, case["rows"], case.get("sheets"), filt_spec], nontrivial)
             out.count("api:" + api)
@@ -612,7 +674,7 @@ def run(tier, seed, model_ok, translator, search=False):
             if model_ok:
                 for f in FORMS:
                     for sh in sheets:
-                        op = bc.model_op(sh, to=f, filt=filt_spec, tracker="raising")
+                        op = bc.model_op(sh, to=f, filt=filt_spec, tracker="raising", fixer_kind=fixer_kind)
                         op["op"] = "parse_blocks_json"
                         ops.append(op)
                     pend.append((f"{api}(to={f})", case, canon_impl(*results[f]), len(sheets)))
@@ -638,7 +700,7 @@ def run(tier, seed, model_ok, translator, search=False):
             rows = ([["a:", "b"], []] if rng.random() < 0.5 else []) + [["**t"], ["all"], names, units]
             if rng.random() < 0.3:
                 rows += [[], ["**u"], ["all"], ["x"], ["-"], ["1"]]
-            tables = [(0, 2 if rows[0][0] == "a:" else 0, 4, "t")] + ([(0, len(rows) - 5, 5, "u")] if rows[-1] == ["1"] else [])
+            tables = [(0, 2 if rows[0][0] == "a:" else 0, 4, "t", None)] + ([(0, len(rows) - 5, 5, "u", ["-"])] if rows[-1] == ["1"] else [])
             case = {"seed": seed, "index": i, "stream": "short units", "api": "parse_blocks", "rows": grid_to_json(rows),
                     "filter": None, "tables": [list(t) for t in tables]}
             results = {f: read_blocks("parse_blocks", rows, f, None) for f in FORMS}
@@ -684,7 +746,7 @@ def replay(rep):
         rows = c02.common_rows_from_json(inp["rows"])
         api = inp.get("api", "parse_blocks")
         filt_py = bc.py_filter(inp.get("filter"))
-        tables = [tuple(t) if len(t) == 4 else (0,) + tuple(t) for t in inp.get("tables", [])]
+        tables = [tuple(t) if len(t) >= 4 and isinstance(t[3], str) else (0,) + tuple(t) for t in inp.get("tables", [])]
         sheets = [rows] if "sheets" not in inp else [c02.common_rows_from_json(sh) for sh in inp["sheets"]]
         tmp = tempfile.mkdtemp(prefix="c07r-")
         try:
